@@ -3,7 +3,9 @@
 package main
 
 import (
+	"crypto/sha256"
 	"errors"
+	"fmt"
 	"time"
 	"crawshaw.io/sqlite"
 	"crawshaw.io/sqlite/sqlitex"
@@ -502,6 +504,61 @@ func runScenario(d *driver, kind string) {
 		if li2 := d.restart(li, true); li2 != nil {
 			d.submitSome(li2, 2)
 			d.round(li2)
+			d.round(li2)
+		}
+	case "tamperissuer":
+		// an issuer object is ALTERED (not deleted) between two runs; the restarted instance is then sent several
+		// submissions that chain to it, one after the other, a resubmission among them: every one of them finds the
+		// existing object different and fails, the first as well as the later ones (seed C08-7: the fingerprint was
+		// marked known before the comparison and stayed so when it failed)
+		li := d.boot(0)
+		iss := d.issuers[d.r.Intn(len(d.issuers))]
+		e0 := d.newEntry()
+		e0.Issuers = [][]byte{iss}
+		d.submit(li, e0, false)
+		d.submitSome(li, d.r.Intn(3))
+		d.round(li)
+		d.round(li)
+		d.kill(li)
+		key := fmt.Sprintf("issuer/%x", sha256.Sum256(iss))
+		d.w.mu.Lock()
+		if o, ok := d.w.objects[key]; ok {
+			alt := bytes.Clone(o.data)
+			switch d.r.Intn(3) {
+			case 0:
+				alt[d.r.Intn(len(alt))] ^= 1 << d.r.Intn(8)
+			case 1:
+				alt = alt[:len(alt)/2]
+			default:
+				alt = []byte("EVIL")
+			}
+			d.w.objects[key] = object{alt, o.imm}
+			d.w.logf(nil, "ev|tamper|%s|bytes|%s", key, hx(alt))
+			d.stats["tamper"]++
+			d.stats["tamper-altered-issuer"]++
+			d.w.mon.tampered = true
+			if d.w.mon.alteredIssuers == nil {
+				d.w.mon.alteredIssuers = map[string]bool{}
+			}
+			d.w.mon.alteredIssuers[key] = true
+		}
+		d.w.mu.Unlock()
+		if li2 := d.restart(li, true); li2 != nil {
+			var es []*ctlog.PendingLogEntry
+			for k := 0; k < 3; k++ {
+				e := d.newEntry()
+				e.Issuers = [][]byte{iss}
+				if k == 1 {
+					e.Issuers = append([][]byte{d.issuers[d.r.Intn(len(d.issuers))]}, iss)
+				}
+				es = append(es, e)
+				d.submit(li2, e, false)
+			}
+			d.submit(li2, es[0], false)
+			d.submit(li2, e0, false) // already logged: the cache may answer it (no issuer is touched then)
+			d.round(li2)
+			d.round(li2)
+			d.submit(li2, es[2], false)
 			d.round(li2)
 		}
 	case "clockcrash":
